@@ -106,6 +106,15 @@ Theorem C18_proxy_unbound_iff : forall b,
 Proof. exact proxy_spec_cases. Qed.
 Print Assumptions C18_proxy_unbound_iff.
 
+(* middleware glue: wrapping a response iterable (make_middleware) and discarding it, in whatever
+   context that happens, leave the whole world as it is; closing it is OpCleanup, already covered by
+   C18_sibling_frame (it releases in the closing context only).  Tie: the statement structure of
+   make_middleware / middleware / cleanup / ClosingIterator.close is pinned by the translator. *)
+Theorem C18_middleware_drop_no_effect : forall w c,
+  fst (step gen_methods w (c, OpMwOpen)) = w /\ fst (step gen_methods w (c, OpMwDrop)) = w.
+Proof. exact (mw_no_effect gen_methods). Qed.
+Print Assumptions C18_middleware_drop_no_effect.
+
 (* non-vacuity: a schedule on which parent and child end up seeing different things, as the
    reference model says; and the hypotheses of C18_isolation_any_methods are load-bearing: with the
    copy() removed from __setattr__ and push the programs are still correct in one context, are
